@@ -57,7 +57,7 @@ pub fn scenario(name: &str, params: &Value) -> Scenario {
             let mut e = vec![];
             e.extend(start_events(s, &specs, 3, 2));
             // acknowledgements also for cancelled operations (late acknowledgements)
-            e.extend(broker_acks(s, true, false));
+            e.extend(broker_acks_ext(s, true, false, true));
             for i in 0..s.m.ops.len() {
                 let o = &s.m.ops[i];
                 if o.alive && o.st != St::Done {
